@@ -417,15 +417,22 @@ check_lattice(const gspec_t *g, const dc_result_t *R, int T, const char *cd, con
             {
                 int32 post = lattice_posterior(dag, ascale);
                 long double delta = 2.0L + 1.0L * nlinks, fwd_total, bwd_total;
-                static long double A[LT_MAXN * 8], B[LT_MAXN * 8];
-                static latlink_t *LK[LT_MAXN * 8];
+                static long double *A, *B;
+                static latlink_t **LK;
+                static int lkcap;
                 int nl = 0, a, b;
                 long double lb = logl((long double)logmath_get_base(dag->lmath));
 #define LADD(x, y) ((x) == -HUGE_VALL ? (y) : (y) == -HUGE_VALL ? (x) : ((x) > (y) ? (x) + log1pl(expl(((y) - (x)) * lb)) / lb : (y) + log1pl(expl(((x) - (y)) * lb)) / lb))
-                /* links in topological order of their source node */
+                /* links in topological order of their source node (the tables hold every link of the lattice) */
+                if (nlinks + 1 > lkcap) {
+                    lkcap = (nlinks + 1) * 2;
+                    A = realloc(A, sizeof *A * lkcap);
+                    B = realloc(B, sizeof *B * lkcap);
+                    LK = realloc(LK, sizeof *LK * lkcap);
+                }
                 for (i = 0; i < norder; i++)
                     for (x = LT_NODE[order[i]]->exits; x; x = x->next)
-                        if (nl < LT_MAXN * 8)
+                        if (nl < lkcap)
                             LK[nl++] = x->link;
                 for (a = 0; a < nl; a++) {
                     long double sc = (long double)(int32)((LK[a]->ascr << SENSCR_SHIFT) * ascale);
@@ -521,6 +528,9 @@ check_lattice(const gspec_t *g, const dc_result_t *R, int T, const char *cd, con
                         return -1;
                     }
                 }
+                if (first && REAL_MODE)
+                    mc_sample("%s %s: lattice of %d nodes, best start-to-end score %d (%s), first N-best hypothesis %d \"%.60s\"", cd, when, LT_N, best,
+                              LT_PATHS_COMPLETE ? "all paths listed" : "dynamic program", sc, h ? h : "(null)");
                 if (first && sc != best && best > INT_MIN / 4) {
                     mc_viol("C12/nbest-first-is-not-the-best-path", cd, "%s: first hypothesis scores %d, the best path %d; %s", when, sc, best, rs);
                     hyp_iter_free(it);
